@@ -57,6 +57,7 @@ def build_plan(choice: Choice, tier):
         # fault: a pool file is deleted externally at the worst moment - right before the k-th os.remove() the pool
         # issues (i.e. after whatever check the pool did); the pool must tolerate it
         p["vanish_before_remove"] = (1 + d(4, "vanish.at")) if d(4, "vanish") == 3 else None
+        p["second_with"] = d(4, "second.with") == 3      # the same pool object is used by a second with-block
         p["raise_after"] = d(len(ops) + 1, "raise_at") if d(2, "raises") == 1 else None   # raise before op i / at the end
         p["multi_proc_flag"] = False
     elif p["family"] == "tmp-fork":
@@ -70,6 +71,7 @@ def build_plan(choice: Choice, tier):
         n = 1 + d(5, "files")
         # the paths may be given as any iterable; one-shot forms only when the pool is entered once
         p["files_form"] = ["list", "tuple", "generator", "iterator", "list"][d(5, "files.form")]
+        p["relative_paths"] = d(4, "relative.paths") == 3     # paths relative to the working directory
         p["modes"] = ["r", "w", "a", "rb", "r", "r+", "rb+", "wb", "w+", "ab", "a+b", "br", "wb+"][d(13, "mode")]
         p["n_files"] = n
         p["raise_after"] = d(n + 1, "raise_at") if d(2, "raises") == 1 else None
@@ -102,6 +104,7 @@ def build_plan(choice: Choice, tier):
         p["raise_at_end"] = d(4, "raises") == 3
         # a second thread of the parent that creates files too (the parent forks children meanwhile)
         p["helper_thread_creates"] = [0, 0, 1, 2][d(4, "helper.thread")]
+        p["second_with"] = d(4, "second.with") == 3      # the same multi_proc pool object is used by a second with-block
         p["granularity"] = "line" if d(5, "granularity") != 4 else "sync"
     return p
 
@@ -213,6 +216,17 @@ def run_tmp_single(plan, tmpdir):
         v("exception-swallowed", "the exception raised by the with-body did not propagate")
     model.clear()
     check(pool, "after the with block", inside=False)
+    if plan.get("second_with") and raised is None and not viol:
+        try:
+            with pool:
+                pth = pool.create()
+                created.append(pth)
+                model.append(pth)
+                check(pool, "inside the second with block")
+            model.clear()
+            check(pool, "after the second with block", inside=False)
+        except Exception as e:  # noqa
+            v(f"second-with:{type(e).__name__}", "the same pool object used by a second with-block: " + repr(e))
     leaked = len(open_fds() - fds_before)
     if leaked:
         v("descriptor-leak", f"{leaked} file descriptors opened by the pool are still open after the with block "
@@ -332,6 +346,9 @@ def run_filepool(plan, tmpdir):
         with open(pth, "w") as f:
             f.write(f"content {i}\n")
         paths.append(pth)
+    if plan.get("relative_paths"):
+        os.chdir(tmpdir)        # this process is the private child of one run
+        paths = [os.path.basename(p_) for p_ in paths]
     if plan.get("dev_null_at") is not None:
         paths[plan["dev_null_at"]] = "/dev/null"
     handed = []
@@ -351,6 +368,10 @@ def run_filepool(plan, tmpdir):
             pass
         except Exception as e:  # noqa
             v(f"exception:{type(e).__name__}", "failed enter: " + repr(e))
+        leaked = len(open_fds() - fds_before)
+        if leaked:
+            v("descriptor-leak-after-failed-enter", f"{leaked} files opened before the failing member are still open "
+                                                    f"although the with statement was never entered")
         os.rename(paths[miss] + ".away", paths[miss])
     for r in range(rounds):
         raised = None
@@ -533,6 +554,16 @@ def scenario_multi(k: Kernel, plan, obs):
     except BodyError as e:
         raised = e
     obs["phase"] = "left"
+    if plan.get("second_with") and not viol:
+        try:
+            with pool:
+                pth = pool.create()
+                log.created.append(("parent", pth))
+                if len(pool) != 1:
+                    viol.append({"class": "tmp-pool-multi", "site": "second-with:listing", "message": f"len={len(pool)}"})
+        except Exception as e:  # noqa
+            viol.append({"class": "tmp-pool-multi", "site": f"second-with:{type(e).__name__}",
+                         "message": "the same multi_proc pool object used by a second with-block: " + repr(e)})
     if plan["raise_at_end"] and raised is None:
         viol.append({"class": "tmp-pool-multi", "site": "exception-swallowed", "message": "body exception lost"})
     left = [(w, p_) for w, p_ in log.created if os.path.exists(p_)]
